@@ -174,6 +174,12 @@ class C05(core.Prop):
         return [{'kind': 'types', 'a': a, 'b': b, 'level': lv} for a in DTYPE_NAMES for b in DTYPE_NAMES for lv in LEVELS[1:]]
 
     def gen_case(self, rng, i):
+        if rng.random() < 0.1:
+            # rounding on dyadic values (exact in binary floating point, also after scaling by 10^p, p <= 3): incl. ties
+            k = rng.randint(0, 6)
+            return {'kind': 'round', 'p': rng.randint(0, 3),
+                    'vals': [[rng.randint(-4000, 4000), 2 ** k] for _ in range(6)] +
+                            [[2 * rng.randint(-50, 50) + 1, 2], [5 * (2 * rng.randint(-40, 40) + 1), 8]]}
         ref = gen_frame(rng)
         precision = rng.choice([None, None, 0, 0, 1, 2, 6, 10])
         act, kind, detail = mutate(rng, ref, precision)
@@ -199,6 +205,9 @@ class C05(core.Prop):
                 'entry': rng.choice(['memory', 'memory', 'parquet', 'csv'])}
 
     def nontrivial_key(self, case):
+        if case['kind'] == 'round':
+            self.count('round')
+            return None
         if case['kind'] == 'types':
             self.count('types')
             return None
@@ -228,6 +237,11 @@ class C05(core.Prop):
         if case['kind'] == 'types':
             return [{'op': 'c05.types_match', 'a': case['a'], 'b': case['b'], 'level': case['level']},
                     {'op': 'c05.loosen', 't': case['a']}]
+        if case['kind'] == 'round':
+            ops = [{'op': 'c05.round', 'num': n, 'den': d, 'p': case['p']} for n, d in case['vals']]
+            vs = case['vals']
+            ops += [{'op': 'c05.cells_equal', 'p': case['p'], 'x': vs[i], 'y': vs[i + 1]} for i in range(len(vs) - 1)]
+            return ops
         obs = self._observe(case)
         if obs is None:
             return []
@@ -314,6 +328,12 @@ class C05(core.Prop):
                 self.name = n
         if case['kind'] == 'types':
             return [bool(types_match(T(case['a']), T(case['b']), case['level'])), loosen_type(case['a'])]
+        if case['kind'] == 'round':
+            xs = [n / d for n, d in case['vals']]
+            rounded = [float(v) for v in pd.DataFrame({'a': xs}).round(case['p'])['a']]
+            out = list(rounded)
+            out += [rounded[i] == rounded[i + 1] for i in range(len(xs) - 1)]
+            return out
         obs = self._observe(case)
         if obs is None:
             return []
@@ -325,6 +345,8 @@ class C05(core.Prop):
         res = []
         for o in outs:
             v = o['ok'] if 'ok' in o else {'exc': o.get('exc')}
+            if isinstance(v, list) and len(v) == 2 and all(isinstance(t, int) for t in v) and case['kind'] == 'round':
+                v = v[0] / v[1]          # the exact rational, as the float it is correctly rounded to
             if isinstance(v, dict) and 'missing' in v:
                 v = {'missing': sorted(v['missing']), 'extra': sorted(v['extra']), 'wrong_types': sorted(v['wrong_types']),
                      'wrong_ordering': v['wrong_ordering'], 'same': v['same']}
@@ -335,7 +357,7 @@ class C05(core.Prop):
     def oracle(self, case):
         F = []
         fail = lambda clause, detail, key=None: F.append(core.Failure(clause, case, detail, key or clause))
-        if case['kind'] == 'types':
+        if case['kind'] in ('types', 'round'):
             return F
         d = tempfile.mkdtemp(prefix='c05_')
         try:
